@@ -597,7 +597,7 @@ def dict_resolver(env):
 
             try:
                 co = codefind.find_code(*hierarchy, module=module or "__main__")
-            except KeyError:
+            except (KeyError, ImportError):
                 raise CodeNotFoundError(
                     f"Cannot find a function for the reference '{x}'."
                     " Try calling `ptera.refstring` on the function you want"
@@ -627,7 +627,10 @@ def dict_resolver(env):
                 raise SelectorError(f"Could not resolve '{start}'.")
 
             for part in parts:
-                curr = getattr(curr, part)
+                try:
+                    curr = getattr(curr, part)
+                except AttributeError:
+                    raise SelectorError(f"Could not resolve '{x}'.")
 
         return getattr(curr, "__ptera__", curr)
 
@@ -835,7 +838,10 @@ def _select(selector, context="root"):
             captures=(selector.with_focus(),),
             immediate=False,
         )
-    assert isinstance(selector, Call)
+    if not isinstance(selector, Call):
+        raise SelectorError(
+            "A selector must be a single call path, not a sequence."
+        )
     return selector
 
 
